@@ -13,3 +13,4 @@ import Cutadapt.Properties.C05
 #print axioms Cutadapt.C05.bestPairGo_is_argmax
 #print axioms Cutadapt.C05.pair_adapters_both_or_neither
 #print axioms Cutadapt.C05.pair_adapters_trim
+#print axioms Cutadapt.C05.paired_rename_keeps_ids_matched
